@@ -13,7 +13,7 @@ from vlib import nat, natlist, zlit, zlist, blist, coqlist
 
 INFO = {
     "level": "proof",
-    "coq_files": ["model/Search.v", "theory/SearchTheory.v"],
+    "coq_files": ["model/Search.v"],
     "trusted_base": [
         "model/Search.v cert_clauses / bfs_cert_clauses / astar / bfs are the very functions the theorems of props/C05.v speak about (no transfer step)",
         "the graph given to Coq is (actions(s), next_state, -reward, is_absorbing) of the generated problem; msdm receives the same problem through its public MDP interface",
@@ -34,6 +34,7 @@ Definition chk_b succs goals start pb :=
 Definition mir_a succs goals start orders hs tbs :=
   let G := graph_of succs goals in (consistentb G (h_of hs), astar G start (ord_of orders) (h_of hs) tbs).
 Definition mir_b succs goals start orders := bfs (graph_of succs goals) start (ord_of orders).
+Definition reads := (from_mdp_read (DDet 1), from_mdp_read (DDict 1), from_mdp_read (DUnif 1)).
 """
 
 CLAUSES = ["path does not start at the initial state",
@@ -106,7 +107,7 @@ def gen_case(rng):
     if r < .28:
         case["repr"] = "next_state"
     else:
-        kinds = ["det", "det", "uniform", "uniform", "dict"]
+        kinds = ["det", "det", "det", "uniform", "uniform", "uniform", "dict"]
         case["repr"] = rng.choice(kinds) + "/" + rng.choice(kinds)
     # heuristic (as a COST per state; msdm gets heuristic_value = -cost)
     d = exact_dist(case)
@@ -138,6 +139,13 @@ def consistent(case):
             if not h[s] <= c + h[t]:
                 return False
     return True
+
+
+# fixed probe, run with every check: the exact heuristic is +inf everywhere (no goal), fifo ties; the costlier
+# node of state 2 (pushed first) is popped before the cheaper one pushed later
+INF_PROBE = {"n": 3, "succ": [[[0, 1, 0], [1, 2, 5]], [[0, 2, 0]], []], "goal": [False, False, False], "start": 0,
+             "repr": "next_state", "heuristic": "exact_inf", "h": ["inf", "inf", "inf"], "tie": "fifo",
+             "shuffle": False, "seed": None, "bfs_seed": None, "fixed": "infinite-heuristic-probe"}
 
 
 def features(case):
@@ -234,13 +242,21 @@ def run(ctx):
     if ctx.replay_case:
         cases = [ctx.replay_case["detail"]["case"]]
     else:
-        cases = [gen_case(ctx.rng) for _ in range(ncases)]
+        cases = [gen_case(ctx.rng) for _ in range(ncases)] + [INF_PROBE]
     impl = ctx.impl("c05_impl.py", {"cases": cases}, shards=8 if tier == "quick" else 16)["results"]
+
+    # model of from_mdp: which representations of a single outcome can be read (theorems from_mdp_repr_*)
+    rd = ctx.coq(PRE, ["reads"], tag="reads")[0]
+    if isinstance(rd, vlib.CoqError) or len(rd) != 3:
+        ctx.violation("C05:coq-evaluation-failed", {"case": None, "error": str(rd)[:800]}, found=False)
+        model_reads = {"det": True, "dict": True, "uniform": True}
+    else:
+        model_reads = {k: v == ("Some", 1) for k, v in zip(("det", "dict", "uniform"), rd)}
 
     terms, meta = [], []
     feats = {}
-    dict_reported = False
-    n_dict_err = 0
+    reported_once = set()
+    n_dict_err = n_inf_assert = stale_from_mdp_model = 0
     distinct = set()
     for i, (case, res) in enumerate(zip(cases, impl)):
         for k, v in features(case).items():
@@ -250,19 +266,37 @@ def run(ctx):
             ctx.violation("C05:impl-error:" + res["error"].split(":")[0], {"case": case, "error": res["error"]}, found=False)
             continue
         gt = graph_term(case)
-        uses_dict = "dict" in case["repr"]
+        kinds = [] if case["repr"] == "next_state" else case["repr"].split("/")
+        # the initial distribution is always read; a next-state distribution only if the start gets expanded
+        expands = not case["goal"][case["start"]] and bool(case["succ"][case["start"]])
+        model_accepts = all(model_reads[k] for k in (kinds if expands else kinds[:1]))
         for alg in ("astar", "bfs"):
             out = res[alg]
+            if "error" not in out and not model_accepts:
+                stale_from_mdp_model += 1      # msdm reads a representation the model says it cannot: model is behind the code
             if "error" in out:
                 et = out["error"].split(":")[0]
-                if uses_dict and et == "TypeError" and "dict_keys" in out["error"]:
+                if "dict" in kinds and et == "TypeError" and "dict_keys" in out["error"]:
+                    # the clause "however its single-outcome distributions are represented" fails (from_mdp_repr_refuted)
                     n_dict_err += 1
-                    if not dict_reported:
-                        dict_reported = True
+                    if "dict" not in reported_once:
+                        reported_once.add("dict")
                         ctx.violation("C05:from_mdp:dict-distribution-support-not-indexable",
-                                      {"case": case, "algorithm": alg, "error": out["error"],
+                                      {"case": case, "algorithm": alg, "error": out["error"], "model_from_mdp_read": model_reads,
                                        "clause": "a deterministic MDP given through a single-entry DictDistribution is not accepted: "
                                                  "from_mdp indexes `.support[0]` but DictDistribution.support is a dict keys view"},
+                                      found=True)
+                    continue
+                if alg == "astar" and "inf" in case["h"] and et == "AssertionError" and "stored as best node" in out["error"]:
+                    # exact heuristic = +inf on states that cannot reach a goal: all their keys tie at +inf, an older
+                    # (costlier) node of a state can be popped before its best node and the internal assertion fires
+                    n_inf_assert += 1
+                    if "inf" not in reported_once:
+                        reported_once.add("inf")
+                        ctx.violation("C05:astar:infinite-heuristic-stale-node-assertion",
+                                      {"case": case, "algorithm": alg, "error": out["error"],
+                                       "clause": "A* raises AssertionError instead of returning a plan / no plan when the (consistent, exact) "
+                                                 "heuristic is +inf on states from which no absorbing state is reachable"},
                                       found=True)
                     continue
                 ctx.violation("C05:%s:raises:%s" % (alg, et), {"case": case, "algorithm": alg, "error": out["error"],
@@ -342,6 +376,8 @@ def run(ctx):
         "samples": [{"case": cases[0], "impl": impl[0]}] if cases else [],
         "certificate_checks": nchk, "certificate_accepts": accepted, "mirror_runs": nmir, "mirror_drift": drift,
         "mirror_drift_samples": drift_samples,
-        "dict_distribution_cases_raising_TypeError": n_dict_err,
+        "dict_distribution_runs_raising_TypeError": n_dict_err,
+        "infinite_heuristic_runs_raising_AssertionError": n_inf_assert,
+        "from_mdp_model": model_reads, "from_mdp_model_behind_code_runs": stale_from_mdp_model,
         "input_features": feats, "cases": len(cases),
     })
